@@ -27,6 +27,7 @@ VERUS_UNITS = {
     "rank": ("units_rank", ["C17"]),
     "kern": ("units_kern", ["C19"]),
     "own": ("units_own", ["C09"]),
+    "evloop": ("units_evloop", ["C11"]),
 }
 # units in which a lock guard is encoded as a `&mut` borrow of its owner (rule R8)
 R8_UNITS = ("frontend", "proxy", "gpu")
@@ -38,7 +39,7 @@ for _u, (_m, _ps) in VERUS_UNITS.items():
 
 # units that carry LABELLED clauses of further properties (only those clauses are charged to them; unlabelled failures of the
 # unit stay with its default properties)
-VERUS_ALSO = {"C09": ["chunk"], "C01": ["chunk"], "C14": ["misc"]}
+VERUS_ALSO = {"C09": ["chunk"], "C01": ["chunk"], "C14": ["misc"], "C16": ["evloop"], "C17": ["evloop"]}
 for _p, _us in VERUS_ALSO.items():
     for _u in _us:
         if _u not in VERUS_FOR.setdefault(_p, []):
